@@ -2,6 +2,8 @@
 import SierraModel.Props.C01
 import SierraModel.Props.C02
 import SierraModel.Props.C04
+import SierraModel.Props.C05
+import SierraModel.Props.C06
 import SierraModel.Props.C08
 import SierraModel.Props.C12
 import SierraModel.Props.C13
